@@ -134,7 +134,7 @@ func (e *Engine) schedule(st *State) []*State {
 				desc += fmt.Sprintf(" g%d(wait=%d in %s)", g.id, g.wait, where)
 			}
 		}
-		e.vc(st, "DEADLOCK: all goroutines blocked:"+desc, B(true))
+		e.vc(st, "deadlock", "DEADLOCK: all goroutines blocked:"+desc, B(true))
 		return nil
 	}
 	pick := func(s *State, i int) *State {
@@ -197,7 +197,7 @@ func (e *Engine) trySend(st *State, g *G, p Ptr, v Value) (bool, string) {
 	}
 	cm := st.heap[p.obj].v.(*ChanModel)
 	if cm.closed {
-		e.vc(st, "send on closed channel", B(true))
+		e.panicVC(st, "send on closed channel", B(true))
 		return false, "VC"
 	}
 	if len(cm.buf) < cm.cap || (cm.cap == 0 && len(cm.buf) == 0 && e.parkedReceiver(st, p.obj, g) != nil) {
